@@ -70,8 +70,23 @@ Section Group.
     | o :: r => accepted g o ++ run_written (fst (wal_step g o)) r
     end.
 
-  Definition inv (g : group) (ps : list bytes) : Prop :=
-    exists chunks cur, g_files g = map frames chunks /\ g_head g ++ g_buf g = frames cur /\ concat chunks ++ cur = ps.
+  (** bytes removed from the disk by checkTotalSizeLimit along a run *)
+  Definition step_pruned (g : group) (o : wal_op) : nat :=
+    match o with
+    | WPrune tl => length (concat (firstn (pruned_count tl g) (g_files g)))
+    | _ => 0
+    end.
+
+  Fixpoint run_pruned (g : group) (ops : list wal_op) : nat :=
+    match ops with
+    | [] => 0
+    | o :: r => step_pruned g o + run_pruned (fst (wal_step g o)) r
+    end.
+
+  (** [ps]: everything accepted so far; [dropped]: the oldest records, whose files were pruned ([n] bytes) *)
+  Definition inv (g : group) (ps : list bytes) (n : nat) : Prop :=
+    exists dropped chunks cur, g_files g = map frames chunks /\ g_head g ++ g_buf g = frames cur /\
+      dropped ++ concat chunks ++ cur = ps /\ length (frames dropped) = n.
 
   Lemma bufio_write_concat cap disk buf p :
     fst (bufio_write cap disk buf p) ++ snd (bufio_write cap disk buf p) = disk ++ buf ++ p.
@@ -89,31 +104,53 @@ Section Group.
   Lemma encode_some p fr : encode crc p = Some fr -> fr = frame p.
   Proof. unfold encode. destruct (_ <? _)%N; congruence. Qed.
 
-  Lemma group_write_inv g ps p : inv g ps -> inv (group_write g (frame p)) (ps ++ [p]).
+  Lemma group_write_inv g ps n p : inv g ps n -> inv (group_write g (frame p)) (ps ++ [p]) n.
   Proof.
-    intros [chunks [cur [F [H C]]]]. unfold group_write.
+    intros [dr [chunks [cur [F [H [C L]]]]]]. unfold group_write.
     pose proof (bufio_write_concat (N.to_nat head_buf_size) (g_head g) (g_buf g) (frame p)) as B.
     destruct (bufio_write (N.to_nat head_buf_size) (g_head g) (g_buf g) (frame p)) as [d b]. cbn [fst snd] in B.
-    exists chunks, (cur ++ [p]). cbn [g_files g_head g_buf]. repeat split; auto.
+    exists dr, chunks, (cur ++ [p]). cbn [g_files g_head g_buf]. repeat split; auto.
     - rewrite B, app_assoc, H, (frames_app crc). cbn. rewrite app_nil_r. reflexivity.
-    - rewrite app_assoc, C. reflexivity.
+    - rewrite <- C, <- !app_assoc. reflexivity.
   Qed.
 
-  Lemma group_flush_inv g ps : inv g ps -> inv (group_flush g) ps.
+  Lemma group_flush_inv g ps n : inv g ps n -> inv (group_flush g) ps n.
   Proof.
-    intros [chunks [cur [F [H C]]]]. exists chunks, cur. cbn. rewrite app_nil_r. auto.
+    intros [dr [chunks [cur [F [H [C L]]]]]]. exists dr, chunks, cur. cbn. rewrite app_nil_r. auto.
   Qed.
 
-  Lemma group_rotate_inv g ps : inv g ps -> inv (group_rotate g) ps.
+  Lemma group_rotate_inv g ps n : inv g ps n -> inv (group_rotate g) ps n.
   Proof.
-    intros [chunks [cur [F [H C]]]]. exists (chunks ++ [cur]), []. cbn. repeat split.
+    intros [dr [chunks [cur [F [H [C L]]]]]]. exists dr, (chunks ++ [cur]), []. cbn. repeat split; auto.
     - rewrite map_app, F, H. reflexivity.
     - rewrite concat_app. cbn. rewrite !app_nil_r. exact C.
   Qed.
 
-  Lemma wal_step_inv g ps o : inv g ps -> inv (fst (wal_step g o)) (ps ++ accepted g o).
+  (** OpenGroup re-reads the indices from the directory; the contents are what they were *)
+  Lemma reopen_inv g ps n : inv g ps n -> inv (reopen g) ps n.
   Proof.
-    intro I. destruct o as [p|p| | | |p0]; cbn [Model.wal_step accepted]; unfold Model.wal_start, Model.wal_write, Model.wal_write_sync.
+    intros I. unfold reopen. destruct (g_files g) as [|f fs] eqn:E; [|exact I].
+    destruct I as [dr [chunks [cur [F [H [C L]]]]]]. exists dr, chunks, cur. cbn [g_files g_head g_buf].
+    rewrite E in F. auto.
+  Qed.
+
+  (** checkTotalSizeLimit removes whole files from the old end: whole records *)
+  Lemma prune_inv tl g ps n : inv g ps n -> inv (check_total_size_limit tl g) ps (n + step_pruned g (WPrune tl)).
+  Proof.
+    intros [dr [chunks [cur [F [H [C L]]]]]]. cbn [step_pruned]. unfold check_total_size_limit.
+    set (k := pruned_count tl g).
+    exists (dr ++ concat (firstn k chunks)), (skipn k chunks), cur. cbn [g_files g_head g_buf]. repeat split.
+    - rewrite F. apply skipn_map'.
+    - exact H.
+    - rewrite <- C, <- !app_assoc. f_equal. rewrite !app_assoc. f_equal.
+      rewrite <- concat_app, firstn_skipn. reflexivity.
+    - rewrite (frames_app crc), app_length, L. f_equal. rewrite F, firstn_map, concat_map_frames. reflexivity.
+  Qed.
+
+  Lemma wal_step_inv g ps n o : inv g ps n -> inv (fst (wal_step g o)) (ps ++ accepted g o) (n + step_pruned g o).
+  Proof.
+    intro I. destruct o as [p|p| | | |p0|tl]; cbn [Model.wal_step accepted]; unfold Model.wal_start, Model.wal_write, Model.wal_write_sync;
+      try (cbn [step_pruned]; rewrite Nat.add_0_r).
     - destruct (encode crc p) as [fr|] eqn:E; cbn [fst]; [|rewrite app_nil_r; exact I].
       apply encode_some in E. subst fr. apply group_write_inv. exact I.
     - destruct (encode crc p) as [fr|] eqn:E; cbn [fst]; [|rewrite app_nil_r; exact I].
@@ -122,30 +159,63 @@ Section Group.
       destruct (g_limit g =? 0)%Z; auto. destruct (g_limit g <=? _)%Z; auto using group_rotate_inv.
     - cbn [fst]. rewrite app_nil_r. apply group_flush_inv. exact I.
     - cbn [fst]. rewrite app_nil_r. apply group_rotate_inv. exact I.
-    - cbn [group_flush g_head]. apply group_flush_inv in I.
+    - apply group_flush_inv, reopen_inv in I.
+      assert (Hd : g_head (reopen (group_flush g)) = g_head g ++ g_buf g).
+      { unfold reopen. cbn [group_flush g_files g_head]. destruct (g_files g); reflexivity. }
+      rewrite Hd.
       destruct (g_head g ++ g_buf g) eqn:H; [|cbn [fst]; rewrite app_nil_r; exact I].
       destruct (encode crc p0) as [fr|] eqn:E; cbn [fst]; [|rewrite app_nil_r; exact I].
       apply encode_some in E. subst fr. apply group_flush_inv, group_write_inv. exact I.
+    - cbn [fst]. rewrite app_nil_r. apply prune_inv. exact I.
   Qed.
 
-  Lemma wal_run_inv ops : forall g ps, inv g ps -> inv (wal_run g ops) (ps ++ run_written g ops).
+  Lemma wal_run_inv ops : forall g ps n, inv g ps n -> inv (wal_run g ops) (ps ++ run_written g ops) (n + run_pruned g ops).
   Proof.
-    induction ops as [|o ops IH]; intros g ps I; cbn [Model.wal_run fold_left run_written].
-    - rewrite app_nil_r. exact I.
-    - rewrite app_assoc. apply IH. apply wal_step_inv. exact I.
+    induction ops as [|o ops IH]; intros g ps n I; cbn [Model.wal_run fold_left run_written run_pruned].
+    - rewrite app_nil_r, Nat.add_0_r. exact I.
+    - rewrite app_assoc, Nat.add_assoc. apply IH. apply wal_step_inv. exact I.
   Qed.
 
   Definition empty_group (min : nat) (limit : Z) : group := mkGroup min [] [] [] limit.
 
-  Lemma inv_empty min limit : inv (empty_group min limit) [].
-  Proof. exists [], []. cbn. auto. Qed.
+  Lemma inv_empty min limit : inv (empty_group min limit) [] 0.
+  Proof. exists [], [], []. cbn. auto. Qed.
 
-  (** after a flush, the files on disk are whole-frame chunks of exactly what was accepted *)
-  Lemma flushed_files g ps :
-    inv g ps -> exists chunks, disk_files (group_flush g) = map frames chunks /\ concat chunks = ps.
+  (** after a flush, the files on disk are whole-frame chunks of exactly what was accepted, minus
+      the pruned oldest records *)
+  Lemma flushed_files g ps n :
+    inv g ps n -> exists dropped chunks, disk_files (group_flush g) = map frames chunks /\ dropped ++ concat chunks = ps /\
+      length (frames dropped) = n.
   Proof.
-    intros [chunks [cur [F [H C]]]]. exists (chunks ++ [cur]). unfold disk_files. cbn [group_flush g_files g_head].
+    intros [dr [chunks [cur [F [H [C L]]]]]]. exists dr, (chunks ++ [cur]). unfold disk_files. cbn [group_flush g_files g_head].
     rewrite map_app, F, H, concat_app. cbn. rewrite app_nil_r. auto.
+  Qed.
+
+  (** no WPrune, nothing pruned *)
+  Lemma run_pruned_none ops : (forall tl, ~ In (WPrune tl) ops) -> forall g, run_pruned g ops = 0.
+  Proof.
+    induction ops as [|o ops IH]; intros N g; [reflexivity|]. cbn [run_pruned].
+    rewrite IH by (intros tl I; apply (N tl); right; exact I).
+    destruct o; try reflexivity. exfalso. apply (N total_limit). left. reflexivity.
+  Qed.
+
+  (** ** checkTotalSizeLimit itself, on any group *)
+  Lemma prune_loop_spec : forall i fs total limit,
+    let k := fst (prune_loop i fs total limit) in
+    k <= i /\ k <= length fs /\
+    (forall j, j < k -> (limit <= total - Z.of_nat (length (concat (firstn j fs))))%Z) /\
+    (k < i -> k < length fs -> (total - Z.of_nat (length (concat (firstn k fs))) < limit)%Z).
+  Proof.
+    induction i as [|i IH]; intros fs total limit; cbn [prune_loop].
+    - cbn [fst]. repeat split; try lia.
+    - destruct (Z.ltb_spec total limit) as [Lt|Ge].
+      + cbn [fst]. repeat split; try lia.
+      + destruct fs as [|f r]; [cbn [fst length]; repeat split; lia|].
+        specialize (IH r (total - Z.of_nat (length f))%Z limit).
+        destruct (prune_loop i r (total - Z.of_nat (length f)) limit) as [k fs'] eqn:E. cbn [fst] in *.
+        destruct IH as [A [B [C D]]]. cbn [length]. repeat split; try lia.
+        * intros [|j] Hj; [cbn; lia|]. cbn [firstn concat]. rewrite app_length. specialize (C j). lia.
+        * intros K1 K2. cbn [firstn concat]. rewrite app_length. assert (k < i) by lia. assert (k < length r) by lia. lia.
   Qed.
 
   Lemma group_stream_min g : group_stream g (g_min g) = concat (disk_files g).
